@@ -1,4 +1,4 @@
--- Why `TxQ` / `TxS` (NrfProofs/C15Safe.lean) got one more conjunct each when `L3Contracts`
+-- Why `TxQ` / `TxS` (NrfProofs/C15Safe.lean) got one more conjunct each when `C15Contracts`
 -- (NrfProofs/C15Contract.lean) was discharged (NrfProofs/C15Discharge.lean: `c15contracts`): three model
 -- states that satisfy the *old* predicate (`TxSOld` below, the definition before the change) and every other
 -- precondition of a contract, on which the call returns normally but the conclusion `TxS s'` fails.
